@@ -528,5 +528,10 @@ func Run(c *common.Ctx) error {
 			return err
 		}
 	}
+	for _, wal := range []bool{false, true} {
+		if err := restoreExcludesConnections(c, c.Rng.Fork(), wal); err != nil {
+			return err
+		}
+	}
 	return nil
 }
